@@ -21,11 +21,11 @@ var BaseOpts = []ucfg.Option{ucfg.PathSep("."), ucfg.VarExp}
 
 // Built is a world realised as library objects.
 type Built struct {
-	C       *ucfg.Config
-	Opts    []ucfg.Option // read options: PathSep, VarExp, Env..., Resolve...
-	mu      sync.Mutex
-	ResLog  []ResCall // resolver calls in the order they happened
-	Merges  []string  // description of the merge steps used to build C
+	C      *ucfg.Config
+	Opts   []ucfg.Option // read options: PathSep, VarExp, Env..., Resolve...
+	mu     sync.Mutex
+	ResLog []ResCall // resolver calls in the order they happened
+	Merges []string  // description of the merge steps used to build C
 }
 
 type ResCall struct {
